@@ -388,6 +388,21 @@ class Goebner:
             if collector.function in (AggregateFunction.Min, AggregateFunction.Max):
                 raise SympyApi("Cannot express multiplication with min/max aggregate, skipping.")
             rest = [x for x in asts if x.ast_type != ASTType.BodyAggregate]
+            if collector.function == AggregateFunction.SumPlus and not all(
+                x.ast_type == ASTType.SymbolicTerm and x.symbol.type == clingo.SymbolType.Number and x.symbol.number > 0
+                for x in rest
+            ):
+                # #sum+ ignores negative weights: a factor that may not be positive can only be moved into weights that
+                # are non-negative numbers, and the result is a #sum
+                if not all(
+                    e.terms
+                    and e.terms[0].ast_type == ASTType.SymbolicTerm
+                    and e.terms[0].symbol.type == clingo.SymbolType.Number
+                    and e.terms[0].symbol.number >= 0
+                    for e in collector.elements
+                ):
+                    raise SympyApi("Cannot move a factor that may not be positive into the weights of #sum+, skipping.")
+                collector = collector.update(function=AggregateFunction.Sum)
             newelements: list[AST] = []
             factor: AST = rest[0]
             for factor_index in range(1, len(rest)):
